@@ -8,6 +8,12 @@ import re
 from ckl.errors import CklRuntimeError
 from ckl.date import to_oa_date, to_date
 
+# The ints of the language have no size limit, and neither has their text:
+# messages, stack traces and conversions all over the interpreter render
+# ints, so the host's limit on int <-> text conversion is lifted.
+if hasattr(sys, "set_int_max_str_digits"):
+    sys.set_int_max_str_digits(0)
+
 
 def date_from_number(value, pos=None):
     try:
